@@ -17,7 +17,9 @@ import sys
 import time
 
 VERIF = os.path.dirname(os.path.dirname(os.path.abspath(__file__)))
-SCRATCH = os.environ.get("VERIF_KANI_SCRATCH", "/tmp/verif-kani-scratch")
+# one scratch copy per checkout of /verif (two checkouts running at once must not share it; runs inside one checkout are
+# serialised by the lock below)
+SCRATCH = os.environ.get("VERIF_KANI_SCRATCH", "/tmp/verif-kani-scratch-" + hashlib.sha1(VERIF.encode()).hexdigest()[:8])
 TARGET = os.environ.get("VERIF_KANI_CACHE", os.path.join(VERIF, ".cache", "kani-target"))
 
 WHAT = {
